@@ -9,6 +9,7 @@ import (
 	"sort"
 	"strings"
 	"sync"
+	"sync/atomic"
 	"time"
 
 	"github.com/NethermindEth/juno/consensus/driver"
@@ -280,6 +281,18 @@ type fnBroadcaster[M any] struct{ f func(M) }
 func (b fnBroadcaster[M]) Broadcast(_ context.Context, m M) { b.f(m) }
 
 // runDriverTrace runs the real driver twice on one WAL (second run = restart with replay).
+// traceWindowNs: how long one phase of a driver trace runs (real time). On an overloaded machine the
+// default window sees too few commits; main re-runs traces with a longer window before it gives up
+// (the verdict of a trace never depends on time, only the amount of evidence does).
+var traceWindowNs atomic.Int64
+
+func traceWindow() time.Duration {
+	if n := traceWindowNs.Load(); n > 0 {
+		return time.Duration(n)
+	}
+	return 1200 * time.Millisecond
+}
+
 func runDriverTrace(res *lib.Result, r *lib.RNG, idx int) (totalCommits, totalTimeouts int, checks []execCheck, replays []replayCheck) {
 	cfg := &Cfg{Powers: []uint64{1, 1, 1, 1}, Total: 4, VMod: 4, VRem: 3, PMul: 1, Tbl: []int{0, 1, 2, 3}}
 	me := r.Intn(4)
@@ -302,7 +315,7 @@ func runDriverTrace(res *lib.Result, r *lib.RNG, idx int) (totalCommits, totalTi
 		props := make(chan *types.Proposal[Val, Hsh, Adr])
 		pvs := make(chan *types.Prevote[Hsh, Adr])
 		pcs := make(chan *types.Precommit[Hsh, Adr])
-		ctx, cancel := context.WithTimeout(context.Background(), 1200*time.Millisecond)
+		ctx, cancel := context.WithTimeout(context.Background(), traceWindow())
 		send := func(f func()) {
 			go func() {
 				if chance(dropP) {
